@@ -335,7 +335,7 @@ func runC07(w *mon.W) {
 		return
 	}
 	r := w.Rng
-	total := w.Share(w.Pick(600, 20000))
+	total := w.Share(w.Pick(1200, 20000))
 	vo := gen.ValOpts{IntegralF: false}
 	for it := 0; it < total; it++ {
 		typ := []string{"dlg", "inv"}[it%2]
